@@ -11,7 +11,7 @@
    single steps; the GIL is handed over fairly between threads that run Python. *)
 From Coq Require Import Arith List Bool.
 Import ListNotations.
-From Cffi Require Import C28.Gen C28.Model C28.Proofs C28.Proofs2 C28.Proofs3 C28.Proofs4.
+From Cffi Require Import C28.Gen C28.Model C28.Proofs C28.Proofs2 C28.Proofs3 C28.Proofs4 C28.Proofs5.
 
 (* Python is initialized at most once *)
 Theorem C28_py_initialize_at_most_once : forall n sched, pycount (run n sched) <= 1.
@@ -101,23 +101,86 @@ Theorem C28_no_deadlock_independent_libraries : forall n sched,
 Proof. exact no_deadlock_independent. Qed.
 Print Assumptions C28_no_deadlock_independent_libraries.
 
-(* Termination up to fairness (the pattern of C26_bounded_steps).  [rank] orders the program points
-   of a call (PCall = 18 ... PInPy = 1).  Every step of thread t leaves its stack unchanged (it is
-   blocked, idle or past nthr), or starts a nested call (only from the user's init code, an extern
-   function or an idle thread), or returns from the innermost call, or moves the innermost call to a
-   point of strictly smaller rank — and never touches another thread's stack (step_other).  So a
-   call returns after at most 18 own effective steps plus the steps of the nested calls its user
-   code makes; together with C28_no_deadlock_one_library (an effective step is always available
-   to somebody) every call to a single library terminates under a weakly fair scheduler and
-   terminating user code — those two are the hypotheses that are not formalised. *)
+(* The one-step SHAPE lemma behind the bound below (it states no bound by itself).  [rank] orders the
+   program points of a call (PCall = 18 ... PInPy = 1).  Every step of thread t leaves its stack
+   unchanged (it is blocked, idle or past nthr), or starts a nested call (only from the user's init
+   code, an extern function or an idle thread), or returns from the innermost call, or moves the
+   innermost call to a point of strictly smaller rank. *)
 Theorem C28_bounded_steps : forall s t c, effect (stacks s t) (stacks (step s (t, c)) t).
 Proof. exact bounded_steps_step. Qed.
 Print Assumptions C28_bounded_steps.
 
+(* The bound.  [weight s] = sum over the threads t < nthr s and over the frames (l, p) of t's stack
+   of [rank p]; [total_frames s] = the number of calls in progress (nested ones included).  For ANY
+   state s (reachable or not), thread t and choice c:
+   - a step that leaves t's stack unchanged leaves the whole state unchanged (stuttering);
+   - a step that changes it and does not start a call (c = COk / CFail) strictly decreases the weight;
+   - a step that starts a call adds at most 18;
+   - weight s <= 18 * total_frames s. *)
+Theorem C28_stutter : forall s t c, stacks (step s (t, c)) t = stacks s t -> step s (t, c) = s.
+Proof. exact stutter. Qed.
+Print Assumptions C28_stutter.
+
+Theorem C28_weight_decreases : forall s t c, is_call c = false ->
+  stacks (step s (t, c)) t <> stacks s t -> weight (step s (t, c)) < weight s.
+Proof. exact weight_decreases. Qed.
+Print Assumptions C28_weight_decreases.
+
+Theorem C28_weight_call : forall s t l, weight (step s (t, CCall l)) <= weight s + 18.
+Proof. exact weight_call. Qed.
+Print Assumptions C28_weight_call.
+
+Theorem C28_weight_bound : forall s, weight s <= 18 * total_frames s.
+Proof. exact weight_bound. Qed.
+Print Assumptions C28_weight_bound.
+
+(* ... hence, from any state and under ANY schedule segment in which no further call is started
+   (any number of libraries, fair or not): the number of effective (state-changing) steps is at most
+   the weight that is lost, so at most weight s <= 18 * total_frames s.  Everything beyond that
+   is stuttering (spinning on a CAS cell, waiting for a mutex). *)
+Theorem C28_effective_steps_bounded : forall seg s, nocall seg ->
+  eff_count s seg + weight (fold_left step seg s) <= weight s.
+Proof. exact effective_steps_bounded. Qed.
+Print Assumptions C28_effective_steps_bounded.
+
+Theorem C28_effective_steps_bounded_frames : forall seg s, nocall seg ->
+  eff_count s seg <= 18 * total_frames s.
+Proof. exact effective_steps_bounded_frames. Qed.
+Print Assumptions C28_effective_steps_bounded_frames.
+
+(* "Every call terminates", with a bound, under a bounded-fair scheduler.  s is any state reached by n
+   threads; the libraries in use do not call into each other (in particular: one library).  The
+   scheduler then runs [rounds]: in each round every thread is scheduled at least once, in any
+   order and any number of times, and no further call is started (the init codes / extern
+   functions that are running return: COk or CFail, chosen by the schedule).  As long as a call is
+   in progress every round contains an effective step (no deadlock: the thread found by
+   C28_no_deadlock_* moves whatever non-call choice it gets, and if somebody else moved first that
+   was an effective step too), so after weight s <= 18 * total_frames s rounds NO call is in progress:
+   every call has returned.  Not covered: init codes that call across libraries (refuted below) and
+   schedules in which user code keeps starting nested calls for ever. *)
+Theorem C28_independent_libraries_terminate : forall rounds n sched,
+  let s := run n sched in
+  independent s ->
+  (forall seg, In seg rounds -> round n seg /\ nocall seg) ->
+  weight s <= length rounds ->
+  forall t, busy (fold_left step (concat rounds) s) t = false.
+Proof. exact independent_terminates. Qed.
+Print Assumptions C28_independent_libraries_terminate.
+
+Theorem C28_single_library_terminates : forall rounds n sched l0,
+  let s := run n sched in
+  single s l0 ->
+  (forall seg, In seg rounds -> round n seg /\ nocall seg) ->
+  18 * total_frames s <= length rounds ->
+  forall t, busy (fold_left step (concat rounds) s) t = false.
+Proof. exact single_library_terminates. Qed.
+Print Assumptions C28_single_library_terminates.
+
 (* ... and after a failed initialization a call of that library stays on the plain path (never
-   the init code, never the extern function): each effective step lowers its rank, so within at
-   most 18 own effective steps it is at PRet and returns the zeroed result.  (The failed state is
-   permanent: C28_failed_init_is_final.) *)
+   the init code, never the extern function): each effective step lowers its rank within the plain
+   program points (one-step statement; the number of effective steps is bounded by
+   C28_effective_steps_bounded) until it is at PRet and returns the zeroed result.  (The failed
+   state is permanent: C28_failed_init_is_final.) *)
 Theorem C28_failed_call_progress : forall n sched l t c p rest,
   let s := run n sched in
   ist (libs s l) = DoneFail -> stacks s t = (l, p) :: rest -> plainpc p = true ->
@@ -145,3 +208,62 @@ Example C28_example_fail :
               flat_map (fun _ => [(0, CFail); (1, CFail); (2, CFail)]) (seq 0 40) in
   observe (run 3 race) 1 = (1, false, [(1, 1, 3, 3)], [0; 0; 0]).
 Proof. vm_compute. reflexivity. Qed.
+
+(* non-vacuity of C28_single_library_terminates: two threads have just called into library 0
+   (weight 36 = 18 * 2 frames); 36 rounds "thread 1, then thread 0", thread 1's init code fails:
+   the hypotheses hold and, as the theorem says, nobody is busy any more; Python and the init code
+   ran once and both calls returned the zeroed result *)
+Example C28_example_rounds :
+  let s := run 2 [(0, CCall 0); (1, CCall 0)] in
+  let rounds := repeat [(1, CFail); (0, COk)] 36 in
+  single s 0 /\ weight s = 36 /\ 18 * total_frames s = length rounds /\
+  (forall seg, In seg rounds -> round 2 seg /\ nocall seg) /\
+  (forall t, busy (fold_left step (concat rounds) s) t = false) /\
+  observe (fold_left step (concat rounds) s) 1 = (1, false, [(1, 1, 2, 3)], [0; 0]).
+Proof.
+  intros s rounds.
+  assert (Sg : single s 0).
+  { intros t f I. destruct t as [| [| t]]; vm_compute in I; intuition (subst; reflexivity). }
+  assert (R : forall seg, In seg rounds -> round 2 seg /\ nocall seg).
+  { intros seg I. apply repeat_spec in I. subst seg. split.
+    - intros t Ht. destruct t as [| [| t]]; [exists COk; right; left; reflexivity | exists CFail; left; reflexivity |].
+      exfalso. apply Nat.succ_lt_mono, Nat.succ_lt_mono in Ht. inversion Ht.
+    - repeat constructor. }
+  assert (W : 18 * total_frames s = length rounds) by (vm_compute; reflexivity).
+  repeat split; try assumption; try (vm_compute; reflexivity).
+  apply (C28_single_library_terminates rounds 2 _ 0 Sg R). rewrite W. constructor.
+Qed.
+
+(* non-vacuity of [independent] with two libraries (C28_no_deadlock_independent_libraries,
+   C28_independent_libraries_terminate): thread 0 is in the init code of library 0 and has called
+   library 0 again from there, thread 1 has called library 1; no single library covers the state;
+   some thread is enabled, and after 41 = weight s rounds nobody is busy *)
+Example C28_example_independent :
+  let s := run 2 ((0, CCall 0) :: go 0 13 ++ [(0, CCall 0); (1, CCall 1)]) in
+  let rounds := repeat [(1, CFail); (0, COk)] 41 in
+  stacks s 0 = [(0, PCall); (0, PInitRun)] /\ stacks s 1 = [(1, PCall)] /\
+  independent s /\ (forall l0, ~ single s l0) /\ weight s = length rounds /\
+  (exists t, t < nthr s /\ enabled s t) /\
+  (forall t, busy (fold_left step (concat rounds) s) t = false) /\
+  observe (fold_left step (concat rounds) s) 2 = (1, false, [(1, 1, 0, 2); (1, 1, 1, 3)], [0; 0]).
+Proof.
+  intros s rounds.
+  assert (S0 : stacks s 0 = [(0, PCall); (0, PInitRun)]) by (vm_compute; reflexivity).
+  assert (S1 : stacks s 1 = [(1, PCall)]) by (vm_compute; reflexivity).
+  assert (Ind : independent s).
+  { intros t l p r f H I. destruct t as [| [| t]].
+    - rewrite S0 in H. inversion H; subst. destruct I as [<- | []]. reflexivity.
+    - rewrite S1 in H. inversion H; subst. destruct I.
+    - vm_compute in H. discriminate. }
+  assert (R : forall seg, In seg rounds -> round 2 seg /\ nocall seg).
+  { intros seg I. apply repeat_spec in I. subst seg. split.
+    - intros t Ht. destruct t as [| [| t]]; [exists COk; right; left; reflexivity | exists CFail; left; reflexivity |].
+      exfalso. apply Nat.succ_lt_mono, Nat.succ_lt_mono in Ht. inversion Ht.
+    - repeat constructor. }
+  assert (W : weight s = length rounds) by (vm_compute; reflexivity).
+  repeat split; try assumption; try (vm_compute; reflexivity).
+  - intros l0 Sg. pose proof (Sg 0 (0, PCall) ltac:(rewrite S0; left; reflexivity)) as A.
+    pose proof (Sg 1 (1, PCall) ltac:(rewrite S1; left; reflexivity)) as B. cbn in A, B. congruence.
+  - apply (C28_no_deadlock_independent_libraries 2 _ Ind). exists 0. unfold busy. fold s. rewrite S0. reflexivity.
+  - apply (C28_independent_libraries_terminate rounds 2 _ Ind R). rewrite W. constructor.
+Qed.
